@@ -17,6 +17,9 @@ def leanchecker(pid):
     return r.returncode == 0, (r.stdout + r.stderr)[-1500:]
 
 
+ENV_QUICK = 3  # number of environments of common.ENVS the quick tier runs (all of them)
+
+
 def main(argv):
     if len(argv) < 2:
         print("usage: check <Cxx> quick|thorough | <Cxx> --replay <path>")
@@ -78,7 +81,9 @@ def main(argv):
             if rep.get("case") is None:
                 print(f"replay names a broken obligation, no input to re-run: {json.dumps(rep.get('broken'))[:500]}")
             else:
-                mod.replay(ctx, rep["case"])
+                ctx.env_name = rep.get("env")
+                with common.environment(rep.get("env")):
+                    mod.replay(ctx, rep["case"])
         else:
             # corpus first
             cdir = os.path.join(VERIF, "corpus", pid)
@@ -89,6 +94,19 @@ def main(argv):
                         ctx.count("corpus_cases")
             try:
                 mod.run(ctx)
+                # the same property under other process-global environments of the caller (default dtype, autograd mode, cwd):
+                # the corpus again, and the module's own environment cases if it has any
+                for env_name in (common.ENVS if tier == "thorough" else list(common.ENVS)[:ENV_QUICK]):
+                    ctx.env_name = env_name
+                    with common.environment(env_name):
+                        if os.path.isdir(cdir):
+                            for f in sorted(os.listdir(cdir)):
+                                if f.endswith(".json"):
+                                    mod.replay(ctx, json.load(open(os.path.join(cdir, f)))["case"])
+                                    ctx.count(f"env:{env_name}:corpus_cases")
+                        if hasattr(mod, "env_run"):
+                            mod.env_run(ctx, env_name)
+                    ctx.env_name = None
             except InternalError:
                 raise
             except Exception as e:  # an exception escaping from the implementation under test is a finding, not a harness error
@@ -134,7 +152,7 @@ def main(argv):
     if unlisted:
         v = unlisted[0]
         replay_out = os.path.join(VERIF, "replays", f"{pid}_{tier}_{seed}_{int(time.time())}.json")
-        write_json(replay_out, {"property": pid, "kind": "failing-input", "point": v["point"], "level": v["level"],
+        write_json(replay_out, {"property": pid, "kind": "failing-input", "env": v.get("env"), "point": v["point"], "level": v["level"],
                                 "signature": v["signature"], "theorem": v.get("theorem"), "case": v["case"], "detail": v["detail"],
                                 "others": [{"point": u["point"], "signature": u["signature"]} for u in unlisted[1:20]],
                                 "broken": broken, "replay_cmd": f"./check {pid} --replay {replay_out}"})
